@@ -258,7 +258,7 @@ def main():
     import hypothesis
     from hypothesis import given, settings, seed as hseed, Phase, HealthCheck
     scan = json.load(open(scanp)); intro = json.load(open(introp))
-    nprog = {'quick': 12, 'thorough': 120}[tier]
+    nprog = {'quick': 16, 'thorough': 120}[tier]
     programs = []
     strat = make_strategies(scan, intro)
     @hseed(int(seed))
